@@ -598,4 +598,176 @@ theorem project_nonneg (a b : Arr β) (toShape : List Nat) (hlen : a.data.length
   | some x => exact hnn x (List.mem_of_getElem? hx)
 
 end ordered
+/-! ### ext: composition of two down-samplings -/
+
+theorem choose_mul_add (K k i : Nat) :
+    K.choose (k + i) * (k + i).choose k = K.choose k * (K - k).choose i := by
+  have := Nat.choose_mul (n := K) (k := k + i) (s := k) (by omega)
+  rwa [Nat.add_sub_cancel_left] at this
+
+theorem vandermonde_range (a b c : Nat) :
+    ∑ i ∈ Finset.range (c + 1), a.choose i * b.choose (c - i) = (a + b).choose c := by
+  rw [Nat.add_choose_eq, Finset.Nat.sum_antidiagonal_eq_sum_range_succ_mk]
+
+theorem compose_sum_nat (N K n m k : Nat) (hm : m ≤ n) (hk : k ≤ m) :
+    ∑ j ∈ Finset.range (n + 1), K.choose j * (N - K).choose (n - j) * (j.choose k * (n - j).choose (m - k))
+      = K.choose k * (N - K).choose (m - k) * ((K - k) + (N - K - (m - k))).choose (n - m) := by
+  have hsplit : n + 1 = k + ((n - m + 1) + (m - k)) := by omega
+  rw [hsplit, Finset.sum_range_add, Finset.sum_range_add]
+  have h1 : ∑ j ∈ Finset.range k, K.choose j * (N - K).choose (n - j) * (j.choose k * (n - j).choose (m - k)) = 0 := by
+    apply Finset.sum_eq_zero
+    intro j hj
+    rw [Nat.choose_eq_zero_of_lt (Finset.mem_range.mp hj)]; simp
+  have h3 : ∑ x ∈ Finset.range (m - k), K.choose (k + (n - m + 1 + x)) *
+      (N - K).choose (n - (k + (n - m + 1 + x))) *
+      ((k + (n - m + 1 + x)).choose k * (n - (k + (n - m + 1 + x))).choose (m - k)) = 0 := by
+    apply Finset.sum_eq_zero
+    intro x hx
+    have := Finset.mem_range.mp hx
+    rw [Nat.choose_eq_zero_of_lt (show n - (k + (n - m + 1 + x)) < m - k by omega)]; simp
+  rw [h1, h3, Nat.zero_add, Nat.add_zero, ← vandermonde_range, Finset.mul_sum]
+  apply Finset.sum_congr rfl
+  intro i hi
+  have hi' : i ≤ n - m := by have := Finset.mem_range.mp hi; omega
+  have e : n - (k + i) = (m - k) + (n - m - i) := by omega
+  have c1 := choose_mul_add K k i
+  have c2 := choose_mul_add (N - K) (m - k) (n - m - i)
+  rw [e]
+  calc K.choose (k + i) * (N - K).choose (m - k + (n - m - i)) *
+        ((k + i).choose k * (m - k + (n - m - i)).choose (m - k))
+      = (K.choose (k + i) * (k + i).choose k) *
+        ((N - K).choose (m - k + (n - m - i)) * (m - k + (n - m - i)).choose (m - k)) := by ring
+    _ = _ := by rw [c1, c2]; ring
+
+theorem compose_nat (N K n m k : Nat) (hK : K ≤ N) (hn : n ≤ N) (hm : m ≤ n) (hk : k ≤ m) :
+    (∑ j ∈ Finset.range (n + 1), K.choose j * (N - K).choose (n - j) * (j.choose k * (n - j).choose (m - k)))
+        * N.choose m
+      = K.choose k * (N - K).choose (m - k) * (N.choose n * n.choose m) := by
+  rw [compose_sum_nat N K n m k hm hk, Nat.choose_mul (n := N) (k := n) (s := m) hm]
+  by_cases h : k ≤ K ∧ m - k ≤ N - K
+  · have : K - k + (N - K - (m - k)) = N - m := by omega
+    rw [this]; ring
+  · have : K.choose k * (N - K).choose (m - k) = 0 := by
+      by_cases h1 : k ≤ K
+      · rw [Nat.choose_eq_zero_of_lt (show N - K < m - k by omega)]; simp
+      · rw [Nat.choose_eq_zero_of_lt (show K < k by omega)]; simp
+    rw [this]; simp
+
+theorem hyper_compose {α : Type} [Field α] [CharZero α] (N K n m k : Nat) (hK : K ≤ N) (hn : n ≤ N) (hm : m ≤ n) :
+    ∑ j ∈ Finset.range (n + 1), (hyper N K n j : α) * hyper n j m k = hyper N K m k := by
+  by_cases hk : k ≤ m
+  · have hA : ((N.choose n : Nat) : α) ≠ 0 := by exact_mod_cast (Nat.choose_pos hn).ne'
+    have hB : ((n.choose m : Nat) : α) ≠ 0 := by exact_mod_cast (Nat.choose_pos hm).ne'
+    have hC : ((N.choose m : Nat) : α) ≠ 0 := by exact_mod_cast (Nat.choose_pos (le_trans hm hn)).ne'
+    have hterm : ∀ j ∈ Finset.range (n + 1), (hyper N K n j : α) * hyper n j m k
+        = ((K.choose j * (N - K).choose (n - j) * (j.choose k * (n - j).choose (m - k)) : Nat) : α)
+          * (((N.choose n : Nat) : α) * ((n.choose m : Nat) : α))⁻¹ := by
+      intro j hj
+      have hj' : j ≤ n := by have := Finset.mem_range.mp hj; omega
+      rw [hyper_eq, hyper_eq, if_pos hj', if_pos hk]
+      push_cast
+      field_simp
+    rw [Finset.sum_congr rfl hterm, ← Finset.sum_mul, hyper_eq, if_pos hk, ← div_eq_mul_inv,
+      div_eq_div_iff (mul_ne_zero hA hB) hC]
+    have := compose_nat N K n m k hK hn hm hk
+    have h2 := congrArg (Nat.cast (R := α)) this
+    push_cast at h2 ⊢
+    exact h2
+  · have : ∀ j ∈ Finset.range (n + 1), (hyper N K n j : α) * hyper n j m k = 0 := by
+      intro j _
+      rw [hyper_eq n j m k, if_neg hk, mul_zero]
+    rw [Finset.sum_congr rfl this, hyper_eq, if_neg hk]
+    simp
+
+theorem getD_map_range {α : Type} (f : Nat → α) (n g : Nat) (h : g < n) (d : α) :
+    ((List.range n).map f).getD g d = f g := by
+  rw [List.getD_eq_getElem?_getD, List.getElem?_map, List.getElem?_range h]
+  rfl
+
+section field
+variable {α : Type} [Field α]
+
+theorem sumBox_compose [CharZero α] : ∀ (fs ms ts fidx tidx : List Nat), InB fs fidx → InB ts tidx →
+    fs.length = ms.length → ms.length = ts.length → (∀ v ∈ ms, 0 < v) → (∀ v ∈ ts, 0 < v) →
+    (∀ j, j < ms.length → ms.getD j 0 ≤ fs.getD j 0) → (∀ j, j < ts.length → ts.getD j 0 ≤ ms.getD j 0) →
+    sumBox ms (fun gidx => (projectValue (fs.map (· - 1)) fidx (ms.map (· - 1)) gidx : α)
+        * projectValue (ms.map (· - 1)) gidx (ts.map (· - 1)) tidx)
+      = projectValue (fs.map (· - 1)) fidx (ts.map (· - 1)) tidx
+  | [], [], [], [], [], _, _, _, _, _, _, _, _ => by simp [sumBox, projectValue]
+  | v :: fs, w :: ms, u :: ts, i :: fidx, t :: tidx, hf, ht, hl1, hl2, hpm, hpt, hle1, hle2 => by
+    have hw : 0 < w := hpm w (by simp)
+    have hu : 0 < u := hpt u (by simp)
+    have hwv : w ≤ v := by simpa using hle1 0 (by simp)
+    have huw : u ≤ w := by simpa using hle2 0 (by simp)
+    have hi : i < v := hf.1
+    have ih := sumBox_compose fs ms ts fidx tidx hf.2 ht.2 (by simpa using hl1) (by simpa using hl2)
+      (fun x hx => hpm x (by simp [hx])) (fun x hx => hpt x (by simp [hx]))
+      (fun j hj => by simpa using hle1 (j + 1) (by simpa using hj))
+      (fun j hj => by simpa using hle2 (j + 1) (by simpa using hj))
+    simp only [sumBox, List.map_cons]
+    have : ∀ g ∈ Finset.range w, sumBox ms (fun gidx =>
+        (projectValue ((v - 1) :: fs.map (· - 1)) (i :: fidx) ((w - 1) :: ms.map (· - 1)) (g :: gidx) : α)
+          * projectValue ((w - 1) :: ms.map (· - 1)) (g :: gidx) ((u - 1) :: ts.map (· - 1)) (t :: tidx))
+        = (hyper (v - 1) i (w - 1) g * hyper (w - 1) g (u - 1) t)
+          * projectValue (fs.map (· - 1)) fidx (ts.map (· - 1)) tidx := by
+      intro g _
+      rw [← ih, ← sumBox_mul_left]
+      congr 1
+      funext gidx
+      simp only [projectValue_cons]
+      ring
+    rw [Finset.sum_congr rfl this, ← Finset.sum_mul, projectValue_cons]
+    congr 1
+    have hw' : w = (w - 1) + 1 := by omega
+    rw [hw']
+    simp only [Nat.add_sub_cancel]
+    exact hyper_compose (v - 1) i (w - 1) (u - 1) t (by omega) (by omega) (by omega)
+  | [], _ :: _, _, _, _, _, _, h, _, _, _, _, _ => by simp at h
+  | _ :: _, [], _, _, _, _, _, h, _, _, _, _, _ => by simp at h
+  | [], [], _ :: _, _, _, _, _, _, h, _, _, _, _ => by simp at h
+  | _ :: _, _ :: _, [], _, _, _, _, _, h, _, _, _, _ => by simp at h
+  | [], [], [], _ :: _, _, h, _, _, _, _, _, _, _ => by simp [InB] at h
+  | _ :: _, _ :: _, _ :: _, [], _, h, _, _, _, _, _, _, _ => by simp [InB] at h
+  | [], [], [], [], _ :: _, _, h, _, _, _, _, _, _ => by simp [InB] at h
+  | _ :: _, _ :: _, _ :: _, _ :: _, [], _, h, _, _, _, _, _, _ => by simp [InB] at h
+
+theorem project_twice [CharZero α] (a b c d : Arr α) (mid toShape : List Nat)
+    (hlen : a.data.length = size a.shape)
+    (h1 : project a mid = .ok b) (h2 : project b toShape = .ok c) (h3 : project a toShape = .ok d) :
+    c = d := by
+  obtain ⟨ok1, hs1, hd1⟩ := project_spec a b mid hlen h1
+  have hlenb : b.data.length = size b.shape := by rw [hd1, hs1]; simp
+  obtain ⟨ok2, hs2, hd2⟩ := project_spec b c toShape hlenb h2
+  obtain ⟨ok3, hs3, hd3⟩ := project_spec a d toShape hlen h3
+  obtain ⟨cd, cs⟩ := c
+  obtain ⟨dd, ds⟩ := d
+  simp only at hs2 hs3 hd2 hd3
+  rw [hs2, hs3, hd2, hd3]
+  congr 1
+  apply List.map_congr_left
+  intro t ht
+  have ht' : t < size toShape := List.mem_range.mp ht
+  rw [hs1] at ok2 ⊢
+  have hg : ∀ g ∈ Finset.range (size mid), b.data.getD g 0 *
+      (projectValue (mid.map (· - 1)) (unflat mid g) (toShape.map (· - 1)) (unflat toShape t) : α)
+      = ∑ f ∈ Finset.range (size a.shape), a.data.getD f 0 *
+        (projectValue (a.shape.map (· - 1)) (unflat a.shape f) (mid.map (· - 1)) (unflat mid g)
+          * projectValue (mid.map (· - 1)) (unflat mid g) (toShape.map (· - 1)) (unflat toShape t)) := by
+    intro g hg
+    rw [hd1, getD_map_range _ _ _ (Finset.mem_range.mp hg), Finset.sum_mul]
+    apply Finset.sum_congr rfl
+    intro f _
+    rw [mul_assoc]
+  rw [Finset.sum_congr rfl hg, Finset.sum_comm]
+  apply Finset.sum_congr rfl
+  intro f hf
+  rw [← Finset.mul_sum]
+  congr 1
+  rw [sum_unflat mid (fun gidx =>
+    (projectValue (a.shape.map (· - 1)) (unflat a.shape f) (mid.map (· - 1)) gidx : α)
+      * projectValue (mid.map (· - 1)) gidx (toShape.map (· - 1)) (unflat toShape t))]
+  exact sumBox_compose a.shape mid toShape _ _ (unflat_inB _ f (Finset.mem_range.mp hf))
+    (unflat_inB _ t ht') ok1.1 ok2.1 ok1.2.2.1 ok2.2.2.1 ok1.2.2.2 ok2.2.2.2
+
+end field
 end Sfs
